@@ -1,0 +1,48 @@
+//go:build verif
+// +build verif
+
+package service
+
+import (
+	"com.tuntun.rangers/node/src/common"
+	"com.tuntun.rangers/node/src/middleware/db"
+	"com.tuntun.rangers/node/src/middleware/types"
+	lru "github.com/hashicorp/golang-lru"
+)
+
+// Verification hook for property C05 (build tag verif, add-only).
+
+// VerifC05RestartTxPool simulates a process restart of the transaction pool:
+// the in-memory parts (pending container, evicted cache, unwritten batch) are
+// dropped and rebuilt over the same executed-transaction store, which is
+// registered with the write gate under the name "tx".
+func VerifC05RestartTxPool() {
+	old := txpoolInstance.(*TxPool)
+	pool := &TxPool{}
+	if old.received != nil && old.received.txCycleTicker != nil {
+		old.received.txCycleTicker.Stop()
+	}
+	pool.received = newSimpleContainer(rcvTxPoolSize)
+	pool.evictedTxs, _ = lru.New(txCacheSize)
+	pool.executed = old.executed
+	db.VerifC05Name(pool.executed, "tx")
+	pool.batch = pool.executed.NewBatch()
+	txpoolInstance = pool
+}
+
+// VerifC05TxState reports where the pool sees a transaction: pending (in the
+// received container), executed (with the block hash recorded), or neither.
+func VerifC05TxState(hash common.Hash) (pending bool, executed bool, blockHash common.Hash) {
+	pool := txpoolInstance.(*TxPool)
+	pending = pool.received.contains(hash)
+	if e := pool.GetExecuted(hash); e != nil {
+		executed = true
+		blockHash = e.Receipt.BlockHash
+	}
+	return
+}
+
+// VerifC05Pending lists the pending transactions in container order.
+func VerifC05Pending() []*types.Transaction {
+	return txpoolInstance.(*TxPool).GetReceived()
+}
